@@ -236,8 +236,10 @@ func oracle(s *mw.Sys) (string, string) {
 			mk, unsure := m.MarkOf(x)
 			switch {
 			case removedCnr:
-				if a.InGarbage != stored {
-					fail(fmt.Sprintf("garbage:removed-container:listed=%v:%s", a.InGarbage, ctx(m, x)), fmt.Sprintf("GetGarbage lists %s of a removed container: %v, indexed: %v", x, a.InGarbage, stored))
+				// every physical object of a removed container is garbage, nothing that is not indexed
+				// is; whether header-only parents are listed is not specified (they go with their children)
+				if (phys && !a.InGarbage) || (!stored && a.InGarbage) {
+					fail(fmt.Sprintf("garbage:removed-container:listed=%v:%s", a.InGarbage, ctx(m, x)), fmt.Sprintf("GetGarbage lists %s of a removed container: %v, indexed: %v, physical: %v", x, a.InGarbage, stored, phys))
 				}
 			case unsure:
 			case (mk != mw.MarkNone) != a.InGarbage:
@@ -314,9 +316,14 @@ func oracle(s *mw.Sys) (string, string) {
 		fail("cross:list-paged-differs-from-full", fmt.Sprintf("ListWithCursor pages of 2 give %v, one page gives %v", o.ListPaged, o.ListFull))
 	}
 	for c := 0; c < mw.NCnr; c++ {
-		empty := len(m.C[c].Objs) == 0
-		if o.CnrGarbage[c] != (m.C[c].Removed && empty) {
-			fail(fmt.Sprintf("garbage:container-removable=%v:removed=%v:empty=%v", o.CnrGarbage[c], m.C[c].Removed, empty), "GetGarbage container verdict for "+mw.CnrNames[c])
+		empty, anyPhys := len(m.C[c].Objs) == 0, false
+		for _, rec := range m.C[c].Objs {
+			anyPhys = anyPhys || rec.Phys
+		}
+		// removable iff removed and nothing left; with only header-only parents left either answer is fine
+		must, mustNot := m.C[c].Removed && empty, !m.C[c].Removed || anyPhys
+		if (must && !o.CnrGarbage[c]) || (mustNot && o.CnrGarbage[c]) {
+			fail(fmt.Sprintf("garbage:container-removable=%v:removed=%v:empty=%v:physical-left=%v", o.CnrGarbage[c], m.C[c].Removed, empty, anyPhys), "GetGarbage container verdict for "+mw.CnrNames[c])
 		}
 	}
 
